@@ -224,7 +224,7 @@ def concrete(a, k, g):
     sq = id13(sq_of(200 + g))
     if k.startswith("T") and k not in ("TS", "TSN"):         # DF18 (TIS-B / non-transponder)
         sub = {"TID": "ID", "TIX": "IDX", "TAE": "APE", "TAO": "APO", "TSE": "SPE", "TV": "VG"}[k]
-        return me_frame(18, 2, aa, me_fields(sub, a, g))
+        return me_frame(18, g % 7, aa, me_fields(sub, a, g))      # control field 0..6
     if k == "S0":
         return frame([(5, 0), (1, 0), (1, 0), (1, 0), (3, 3), (2, 0), (4, 3), (2, 0), (13, alt)], aa, 56)
     if k == "S4":
@@ -232,7 +232,7 @@ def concrete(a, k, g):
     if k == "S5":
         return frame([(5, 5), (3, 0), (5, 0), (6, 0), (13, sq)], aa, 56)
     if k == "S11":
-        return frame([(5, 11), (3, 5), (24, aa)], 0, 56)
+        return frame([(5, 11), (3, 5), (24, aa)], g % 80, 56)           # PI = parity xor interrogator id
     if k == "S16":
         return frame([(5, 16), (1, 0), (2, 0), (3, 3), (2, 0), (4, 3), (2, 0), (13, alt), (56, g)], aa, 112)
     if k[0] in "BC" and k != "BAD":
@@ -371,12 +371,16 @@ def validate_by_history(events, index, workdir, shards, name="trace"):
     """Trace_Snapshot is stateful per history: shard on history boundaries."""
     core.check_i32(events)
     hids = sorted(index)
-    per = max(1, (len(hids) + shards - 1) // shards)
-    parts = []
-    for s in range(0, len(hids), per):
-        first = index[hids[s]][0]
-        last = index[hids[min(s + per, len(hids)) - 1]][1]
-        parts.append((first, last))
+    # cut on history boundaries into parts of about equal numbers of events
+    target = max(1, (len(events) + shards - 1) // shards)
+    parts, start = [], None
+    for h in hids:
+        first, last = index[h]
+        if start is None:
+            start = first
+        if last - start + 1 >= target or h == hids[-1]:
+            parts.append((start, last))
+            start = None
     results = []
 
     def one(k, first, last):
@@ -415,11 +419,16 @@ def model_check(run, thorough):
     """M: the design level has the property (all kind groups), and the spec mutants are refuted."""
     plans = [dict(MC_NA=2, MC_LEN=3, MC_DT=1), dict(MC_NA=3, MC_LEN=3, MC_DT=0)] if not thorough else \
             [dict(MC_NA=3, MC_LEN=3, MC_DT=1), dict(MC_NA=3, MC_LEN=4, MC_DT=0), dict(MC_NA=2, MC_LEN=5, MC_DT=0)]
-    jobs = [dict(p, MC_GROUP=g) for p in plans for g in range(1, MC_GROUPS + 1)]
+    # the longest plan (length 5) only for the groups in which records interact through the design
+    # (surface position resets the altitude, Comm-B 6,0 keeps the vertical rate, call sign validity)
+    jobs = [dict(p, MC_GROUP=g) for p in plans for g in range(1, MC_GROUPS + 1)
+            if p["MC_LEN"] < 5 or g in (1, 4, 8)]
+    jobs.sort(key=lambda j: -j["MC_LEN"])
     par = 8 if thorough else 4
     with cf.ThreadPoolExecutor(max_workers=par) as ex:
         res = list(ex.map(lambda env: core.tlc_ok("mc/MC_Snapshot", cfg="mc/MC_Snapshot.cfg", env=env,
-                                                  workers=1, xmx="3g", timeout=3000), jobs))
+                                                  workers=2 if env["MC_LEN"] >= 5 else 1, xmx="3g",
+                                                  timeout=3000), jobs))
     for r in res:
         run.add_tlc(r)
     mc = {"runs": len(res), "states": sum(r.distinct for r in res), "plans": plans}
@@ -442,7 +451,7 @@ def generate(run, thorough):
                      env=dict(GEN_MODE="short", GEN_DTS=1 if thorough else 0))
     short = g1.printed_json()
     g2 = core.tlc_ok("gen/Gen_Snapshot", cfg="gen/Gen_Snapshot.cfg", workers=1, xmx="3g", timeout=1800,
-                     env=dict(GEN_MODE="random"), simulate=3000 if thorough else 600, depth=130,
+                     env=dict(GEN_MODE="random"), simulate=5000 if thorough else 600, depth=130,
                      seed=run.seed)
     rnd = g2.printed_json()
     if not short or not rnd:
